@@ -46,10 +46,12 @@ ASSUMPTIONS = ["the Python models of the operators used in the workload (tree bu
                "errors are compared by kind only (throw / no throw), never by message",
                "for a merged application the merged operator keeps the identity of the left operator "
                "(e.g. `a zip b with f zip c` is one zip application)",
-               "the `len` field of lazy ranges is not compared (C11 owns Range::len)"]
+               "the `len` field of lazy ranges is not compared (C11 owns Range::len)",
+               "generic sub-monitor: the direct form's value is compared structurally with the oracle; the other forms of the same "
+               "chain are compared with the direct value by the interpreter's own `==` on nested lists of ints/strings"]
 PLAN = {
-    "quick": {"maxlen": 4, "sample": 0, "fam_cases": 1400, "fam_maxlen": 5, "reassign": 16, "nan": False, "shards": 16},
-    "thorough": {"maxlen": 4, "sample": 1_200_000, "fam_cases": 60_000, "fam_maxlen": 7, "reassign": 1200, "nan": True,
+    "quick": {"maxlen": 4, "sample": 0, "fam_cases": 1000, "fam_maxlen": 5, "reassign": 32, "nan": False, "shards": 16},
+    "thorough": {"maxlen": 4, "sample": 800_000, "fam_cases": 40_000, "fam_maxlen": 7, "reassign": 1200, "nan": True,
                  "shards": 64},
 }
 EXHAUSTIVE = {"quick": True, "thorough": True}
@@ -590,6 +592,7 @@ def count_case(sh, fam, ops, tree):
 
 PREC_POOL = [-1000000.0, -3.0, -1.0, -0.5, 0.0, 0.25, 0.5, 1.0, 2.0, 3.0, 4.0, 4.5, 5.0, 6.0, 7.0, 8.0, 100.0, 1e9]
 PERMS4 = list(itertools.permutations(range(4)))
+EQV = 'eqv := \\x, y -> if (x == y) 1 else ["DIFF", x]'
 
 
 def generic_env(r):
@@ -599,7 +602,7 @@ def generic_env(r):
     nums = sorted(r.sample(PREC_POOL, 4))
     pf = r.choice(PERMS4)
     pr = r.choice(PERMS4)
-    prelude = []
+    prelude = [EQV]
     pal = {}
     for j in range(4):
         name = "f%d" % (j + 1)
@@ -639,10 +642,12 @@ def generic_statement(ops, hole_sets, logged_holes):
     parts = ["log := []", "a := %s" % direct_src(ops, osrc), "b := %s" % logged_src(ops, osrc), "l1 := log", "log = []",
              "s := %s" % sec, "l2 := log", "c := s%s" % args, "d := s%s" % args]
     labels = ["direct", "logged", "log", "seclog-created", "seclog-applied", "section-var", "section-var-again"]
-    items = ["a", "b", "l1", "l2", "log", "c", "d"]
+    # only the direct value is dumped structurally; every other form is compared with it by the interpreter's own
+    # `==` on nested lists (eqv gives 1 or ["DIFF", value]) to keep the event small
+    items = ["a", "eqv(b, a)", "l1", "l2", "log", "eqv(c, a)", "eqv(d, a)"]
     for hs in hole_sets:
         s, ar = section_src(ops, osrc, hs)
-        items.append(s + ar)
+        items.append("eqv(%s%s, a)" % (s, ar))
         labels.append("section" + "".join(str(h) for h in hs))
     parts.append("[%s]" % ", ".join(items))
     return "; ".join(parts), labels
@@ -673,10 +678,14 @@ def check_generic(sh, fam, prelude, ops, text, labels, logged_holes, ev, tablesi
             w = expected_log(n)
         elif lab in ("seclog-created", "seclog-applied"):
             w = expected_log(n, logged_holes)
-        else:
+        elif lab == "direct":
             w = want
+        else:
+            w = {"i": "1"}          # eqv(form, direct)
         if g != w:
-            kind = "order" if "log" in lab else "value"
+            kind = "order" if lab in ("log", "seclog-created", "seclog-applied") else "value"
+            if w == {"i": "1"}:
+                w = ["same as the direct form", got[0]]
             form = lab.rstrip("0123456789")
             sh.violation("C03|%s|%s|%s" % (fam, form, kind),
                          "%s form of `%s` with %s: got %s, expected %s (grouping %s)" % (
@@ -709,18 +718,19 @@ def run_generic_grid(sh, w, ctx, si, nshards):
 def sampled_env(r, nan):
     """Random table for the sampled long chains: 6..10 operator values, precedences drawn from a set of 2..5 numbers
     (so ties are frequent), NaN / +-inf in the thorough tier."""
-    k = r.randint(6, 10)
+    k = r.randint(7, 10)
     pool = list(PREC_POOL)
-    nums = r.sample(pool, r.randint(2, 5))
+    distinct = r.random() < 0.3            # every operator value its own precedence: strict orders stay frequent
+    nums = r.sample(pool, k if distinct else r.randint(2, 5))
     if nan:
         if r.random() < 0.35:
             nums.append(NAN)
         if r.random() < 0.15:
             nums.append(r.choice([INF, -INF]))
-    prelude = []
+    prelude = [EQV]
     ops = []
     for j in range(k):
-        p = r.choice(nums)
+        p = nums[j] if distinct and j < len(nums) else r.choice(nums)
         if r.random() < 0.55:
             name = "f%d" % (j + 1)
             prelude.append('%s := \\a, b -> ["%s", a, b]' % (name, name))
@@ -730,7 +740,7 @@ def sampled_env(r, nan):
             prelude.append("%s := .+" % name)
             ops.append(Op(name, "rp", p, "R"))
         prelude.append("%s::precedence = %s" % (name, psrc(p)))
-    return prelude, ops
+    return prelude, ops, distinct
 
 
 def run_generic_sampled(sh, w, ctx, si, nshards):
@@ -740,12 +750,15 @@ def run_generic_sampled(sh, w, ctx, si, nshards):
     r = core.rng_for("C03", ctx.seed, si, "sampled")
     done = 0
     while done < total:
-        prelude, table = sampled_env(r, ctx.plan["nan"])
+        prelude, table, distinct = sampled_env(r, ctx.plan["nan"])
         tablesig = ",".join(o.sig() for o in table)
         cases = []
         for _ in range(128):
             n = r.randint(5, 7)
-            ops = [r.choice(table) for _ in range(n)]
+            if distinct and len(table) >= n and r.random() < 0.6:
+                ops = r.sample(table, n)          # strict order of the chain's precedences
+            else:
+                ops = [r.choice(table) for _ in range(n)]
             allh = list(range(n + 1))
             hole_sets = [tuple(sorted(r.sample(allh, r.randint(1, n + 1)))) for _ in range(2)] + [(r.randrange(n + 1),)]
             logged_holes = tuple(sorted(r.sample(allh, r.randint(1, 3))))
@@ -893,12 +906,20 @@ class RangeFamily(Family):
 
     def gen(self, r, st, n):
         ops = []
-        for i in range(n):
-            prev = ops[-1].kind if ops else None
-            if prev in ("til", "to") and r.random() < 0.6:
-                ops.append(st[r.choice(["by1", "by2"])])
-                continue
-            ops.append(st[wchoice(r, [("gi1", 3), ("gi2", 2), ("ti1", 2), ("ti2", 1.5), ("to1", 2), ("by1", 0.3)])])
+        if r.random() < 0.7:
+            # one range constructor (a lazy range can only be the final value), optionally followed by `by`
+            ops = [st[r.choice(["gi1", "gi1", "gi2"])] for _ in range(n)]
+            j = r.randrange(n)
+            ops[j] = st[r.choice(["ti1", "ti2", "to1"])]
+            if j + 1 < n and r.random() < 0.75:
+                ops[j + 1] = st[r.choice(["by1", "by2"])]
+        else:
+            for i in range(n):
+                prev = ops[-1].kind if ops else None
+                if prev in ("til", "to") and r.random() < 0.6:
+                    ops.append(st[r.choice(["by1", "by2"])])
+                    continue
+                ops.append(st[wchoice(r, [("gi1", 3), ("gi2", 2), ("ti1", 2), ("ti2", 1.5), ("to1", 2), ("by1", 0.3)])])
         opnds = []
         for i in range(n + 1):
             v = r.randint(1, 9)
@@ -1072,7 +1093,7 @@ def run_families(sh, w, ctx, si, nshards):
             tablesig = ",".join(sorted(o.sig() for o in st.values()))
             batch = []
             tries = 0
-            while len(batch) < 48 and tries < 400:
+            while len(batch) < min(48, total - done) and tries < 400:
                 tries += 1
                 n = wchoice(r, [(1, 1), (2, 3), (3, 4), (4, 3), (5, 2)] + ([(6, 1.5), (7, 1)] if ctx.plan["fam_maxlen"] >= 7 else []))
                 ops, opnds, arg = fam.gen(r, st, n)
@@ -1198,7 +1219,8 @@ def reassign_history(r, nan, builtin):
         stmts.append("h%d := \\ -> %s" % (k, text))
         checks.append(None)
         chains.append((cn, vals, text))
-    pool = PREC_POOL[3:16] + ([NAN] if nan else [])
+    # builtin mode: `-` itself may have been swapped away, so no negative literals there
+    pool = (PREC_POOL[4:16] if builtin else PREC_POOL[1:16]) + ([NAN] if nan else [])
     for rnd in range(8):
         muts = []
         for _ in range(r.randint(0 if rnd == 0 else 1, 3)):
@@ -1230,10 +1252,10 @@ def reassign_history(r, nan, builtin):
 
 
 def run_reassign(sh, w, ctx, si, nshards):
-    total = max(1, ctx.plan["reassign"] // nshards)
+    total = max(2, ctx.plan["reassign"] // nshards)
     r = core.rng_for("C03", ctx.seed, si, "reassign")
     for h in range(total):
-        builtin = h % 2 == 1
+        builtin = (h + si) % 2 == 1
         stmts, checks, texts = reassign_history(r, ctx.plan["nan"], builtin)
         evs = core.eval_all(w, stmts, fresh_each=False, jid="c03r")
         fam = "reassign-builtin" if builtin else "reassign-user"
